@@ -324,7 +324,7 @@ func (p *TransportParameters) readNumericTransportParameter(b []byte, paramID tr
 			return fmt.Errorf("initial_max_streams_uni too large: %d (maximum %d)", p.MaxUniStreamNum, protocol.MaxStreamCount)
 		}
 	case maxIdleTimeoutParameterID:
-		p.AdvertisedMaxIdleTimeout = time.Duration(val) * time.Millisecond
+		p.AdvertisedMaxIdleTimeout = saturatingDuration(val, time.Millisecond)
 		p.MaxIdleTimeout = max(protocol.MinRemoteIdleTimeout, p.AdvertisedMaxIdleTimeout)
 	case maxUDPPayloadSizeParameterID:
 		if val < 1200 {
@@ -484,6 +484,15 @@ func (p *TransportParameters) Marshal(pers protocol.Perspective) []byte {
 	}
 
 	return b
+}
+
+// saturatingDuration converts val units to a time.Duration.
+// Values that don't fit (more than 292 years) yield the maximum duration instead of wrapping around.
+func saturatingDuration(val uint64, unit time.Duration) time.Duration {
+	if val > uint64(math.MaxInt64/unit) {
+		return math.MaxInt64
+	}
+	return time.Duration(val) * unit
 }
 
 func (p *TransportParameters) marshalVarintParam(b []byte, id transportParameterID, val uint64) []byte {
